@@ -14,6 +14,7 @@ import (
 	"path/filepath"
 	"sort"
 	"strconv"
+	"strings"
 	"sync"
 	"testing"
 	"time"
@@ -376,4 +377,27 @@ func LoadReplay() (*ReplayCase, error) {
 		return nil, err
 	}
 	return &rc, nil
+}
+
+// ParseFuzzFile reads a Go fuzz corpus file ("go test fuzz v1") with []byte
+// arguments.
+func ParseFuzzFile(path string) ([][]byte, error) {
+	data, err := os.ReadFile(path)
+	if err != nil {
+		return nil, err
+	}
+	var out [][]byte
+	for _, line := range strings.Split(string(data), "\n") {
+		line = strings.TrimSpace(line)
+		if !strings.HasPrefix(line, "[]byte(") || !strings.HasSuffix(line, ")") {
+			continue
+		}
+		q := line[len("[]byte(") : len(line)-1]
+		s, err := strconv.Unquote(q)
+		if err != nil {
+			return nil, err
+		}
+		out = append(out, []byte(s))
+	}
+	return out, nil
 }
